@@ -69,16 +69,19 @@ func (f *FS) Read(name string) ([]byte, error) {
 // Reader is an io.Reader over a byte string that delivers tape-chosen short
 // reads and, optionally, an error at a given offset.
 type Reader struct {
-	Yield  bool // every Read is a scheduling point
-	Data   []byte
-	pos    int
-	Mode   int // 0 whole, 1 one byte, 2 random, 3 at most K
-	K      int
-	ErrAt  int // -1 none
-	Err    error
-	EOFs   int // Read calls answered with EOF
-	Reads  int
-	Shorts int
+	Yield bool // every Read is a scheduling point
+	Data  []byte
+	pos   int
+	Mode  int // 0 whole, 1 one byte, 2 random, 3 at most K
+	K     int
+	ErrAt int // -1 none
+	Err   error
+	// EOFWithLast: the Read that delivers the last bytes returns them together with io.EOF (legal
+	// for an io.Reader; iotest.DataErrReader)
+	EOFWithLast bool
+	EOFs        int // Read calls answered with EOF
+	Reads       int
+	Shorts      int
 }
 
 // NewReader returns a reader; mode as in the Mode field.
@@ -129,6 +132,10 @@ func (r *Reader) Read(p []byte) (int, error) {
 	r.pos += n
 	if r.Yield {
 		rt.Progress()
+	}
+	if r.EOFWithLast && r.pos >= len(r.Data) && r.ErrAt < 0 {
+		r.EOFs++
+		return n, io.EOF
 	}
 	return n, nil
 }
